@@ -96,6 +96,11 @@ CHECKS = {
           "Indexes driven only through the C API (searchlite_index_open / add_json / commit / search): queries as plain text, JSON nodes and raw bytes incl. invalid UTF-8, limits 0..6, garbage and real cursors, valid/invalid aggregation JSON. The output buffer sits between two 64-byte canaries in an allocation pre-filled with 0xAA; for 40 sampled capacities plus the boundary ones (quick) or every capacity from 0 to full length + 16 (half of the thorough cases) the call must leave canaries and every byte at index >= buf_cap untouched, return ret <= buf_cap-1 with a NUL at ret and none before, write a prefix of the full response, leave a zero-capacity buffer alone; null handle/query/buffer return 0 and write nothing; failing searches return 0 and write nothing; null arguments to add/commit return negative status. A crash of the process (null dereference, abort) is caught by the supervisor and traced to the call in flight.",
           "Trusted: the guarded allocation; writes further than 64 bytes outside the buffer that hit unrelated memory without crashing would go unnoticed (no ASan build in this tier).",
           "DESIGN.md §5 C26"),
+  "C28": ("exploration",
+          "model-based property testing on a copied / moved index directory with a byte-level listing of the original as side-effect oracle",
+          "Committed filesystem indexes (4-30 documents, 1-3 segments, deletions, optionally a queued operation in wal.log) are copied file by file to another path or renamed; the original is kept, deleted, or goes on with its own commit + compaction; the copy is opened at the new path and driven with generated search / add / delete / commit / compact / reopen sequences. The copy must open and answer a search battery exactly as the original did at copy time, follow the store model afterwards (after every commit, compaction and reopen), and a byte-for-byte listing of the original directory must be unchanged by anything done through the copy.",
+          "Trusted: the store model; the listing. The copy is taken while no writer is open.",
+          "DESIGN.md §5 C28"),
   "C30": ("exploration",
           "metamorphic property-based testing (composite page walk vs unpaged request), after_key handed back as value and through JSON text",
           "Corpora of 3-40 documents (keyword and f64/i64 fast fields, multi-valued, missing, fractional/negative/extreme values) over 1-3 segments with deletions and optional filter; composite aggregations of 1-3 sources (terms, histogram with fractional intervals) with optional sub-aggregation and page size 1..5. The concatenated pages must equal the unpaged buckets (keys, order, counts, sub-aggregations), every page but the last must be full with after_key == its last key, and the last page must carry no after_key; half of the cases send after_key back through JSON text exactly as an HTTP/CLI/FFI client does.",
